@@ -8,3 +8,5 @@ for p in "$@"; do
 done
 git -C /repo checkout -- .
 git -C /repo status --short | head -3
+# regenerate the generated Lean files from the clean tree again (the checks above left the mutated versions)
+harness/target/release/extract >/dev/null 2>&1
